@@ -286,7 +286,9 @@ def all_mutations(doc):
             muts.append(("extra", False, path, lambda p=path: setp(doc, p + ("zz_extra",), 1)))
         if isinstance(v, list) and v:
             # tuples (prefixItems + minItems/maxItems) vs lists: one element more / one less
-            muts.append(("arity", False, path, lambda p=path, v=v: setp(doc, p, v + [v[-1]])))
+            # (a string is appended in a changed spelling: a plain copy would be the one-way `dup-item` class)
+            more = v[-1] + "_x" if isinstance(v[-1], str) else v[-1]
+            muts.append(("arity", False, path, lambda p=path, v=v, more=more: setp(doc, p, v + [more])))
             muts.append(("arity", False, path, lambda p=path, v=v: setp(doc, p, v[:-1])))
         if isinstance(v, list) and v and all(isinstance(x, str) for x in v):
             # uniqueItems vs set[...]: pydantic deduplicates, the schema demands distinct items (named, one-way)
